@@ -240,6 +240,8 @@ def via_send_command(ctx, model, tup, cov):
             f.write(content)
         files.append((path, content))
     checks = []
+    corr = []
+    chunked = []
     for n in range(ctx.pick(1500, 15000)):
         c = g.random_command()
         k = n % 4
@@ -250,6 +252,14 @@ def via_send_command(ctx, model, tup, cov):
             path, content = rng.choice(files)
             c = g.transmit(own, [f for f in g.FIELDS_P if rng.random() < 0.3] if rng.random() < 0.5 else None, data=path.encode())
             c.medium = rng.choice([gc.TransmissionMedium.FILE, gc.TransmissionMedium.TEMP_FILE, gc.TransmissionMedium.SHARED_MEMORY])
+        limit = 10**6
+        if k == 2 and n % 8 == 2:
+            # an inline transmission cut into several escapes by the terminal's size limit, with every value of `more`
+            own = [f for f in g.FIELDS_T if rng.random() < 0.3 and f not in ("medium", "more")]
+            c = g.transmit(own, [f for f in g.FIELDS_P if rng.random() < 0.3] if rng.random() < 0.3 else None, data=rng.randbytes(rng.choice([150, 400, 900])))
+            c.medium = rng.choice([gc.TransmissionMedium.DIRECT, None])
+            c.more = rng.choice([None, False, True, True])
+            limit = rng.choice([160, 256])
         fp_term, fd_term = rng.random() < 0.5, rng.random() < 0.5
         fp_call, fd_call = rng.choice([None, False, True]), rng.choice([None, False, True])
         eff_fp = fp_term if fp_call is None else fp_call
@@ -268,18 +278,37 @@ def via_send_command(ctx, model, tup, cov):
             if name:
                 byname = dict((p.encode(), b) for p, b in files)
                 if name not in byname:
-                    continue  # a random file name that does not exist: the rewrite raises, nothing to decode
-                exp = exp.clone_with(medium=gc.TransmissionMedium.DIRECT, data=byname[name])
-        if isinstance(exp, gc.TransmitCommand) and exp.medium in (None, gc.TransmissionMedium.DIRECT):
+                    exp = None  # a random file name that does not exist: the rewrite raises, nothing is written
+                else:
+                    exp = exp.clone_with(medium=gc.TransmissionMedium.DIRECT, data=byname[name])
+        if exp is not None and isinstance(exp, gc.TransmitCommand) and exp.medium in (None, gc.TransmissionMedium.DIRECT):
             exp.more = bool(exp.more)   # an inline transmission goes through the chunker, which states m explicitly on the (only) chunk
         out = common.RecStream()
         term = GT(out_command=out, out_display=common.RecStream(), in_response=io.BytesIO(), in_userinput=io.BytesIO(), num_tmux_layers=0,
-                  force_placeholders=fp_term, force_direct_transmission=fd_term, max_command_size=10**6)
+                  force_placeholders=fp_term, force_direct_transmission=fd_term, max_command_size=limit)
+        raised = None
+        orig_tokens = cmdcodec.tokens(gc, c)
         try:
             term.send_command(c, force_placeholders=fp_call, force_direct_transmission=fd_call)
         except Exception as e:  # printing the placeholder afterwards may fail on this stream-only terminal; the command was written before
-            cov.bump("via-send_command/raised-" + type(e).__name__)
-        if len(out.writes) != 1:
+            raised = type(e).__name__
+            cov.bump("via-send_command/raised-" + raised)
+        # correspondence with Model.SendCommand.send_command: the drawn placement id is read off the bytes, the file system
+        # is the one file the payload names (if it is one of ours)
+        mpid = re.search(rb"[G,]p=(\d+)", out.writes[0].split(b";")[0]) if out.writes else None
+        fname, fcontent = "-", "NOFILE"
+        if isinstance(c, gc.TransmitCommand) and c.medium in (gc.TransmissionMedium.FILE, gc.TransmissionMedium.TEMP_FILE):
+            nm = c.get_raw_payload()
+            if nm:
+                fname = hexs(nm)
+                known = dict((p.encode(), b) for p, b in files)
+                fcontent = (hexs(known[nm]) or "-") if nm in known else "NOFILE"
+        corr.append((f"cmd.send_command {int(fp_term)} {int(fd_term)} {'_' if fp_call is None else int(fp_call)} {'_' if fd_call is None else int(fd_call)} "
+                     f"{int(mpid.group(1)) if mpid else 0} {fname} {fcontent} 0 {limit} " + " ".join(orig_tokens), list(out.writes), raised,
+                     (fp_term, fd_term, fp_call, fd_call), orig_tokens))
+        if exp is not None and len(out.writes) > 1 and isinstance(exp, gc.TransmitCommand) and raised is None:
+            chunked.append((exp, list(out.writes), (fp_term, fd_term, fp_call, fd_call), orig_tokens))
+        if exp is None or len(out.writes) != 1:
             cov.bump("via-send_command/not-one-write")
             continue
         esc = out.writes[0]
@@ -294,6 +323,48 @@ def via_send_command(ctx, model, tup, cov):
             else:
                 exp.placement.placement_id = int(m.group(1))
         checks.append((cmdcodec.tokens(gc, exp), esc, (fp_term, fd_term, fp_call, fd_call), cmdcodec.tokens(gc, c)))
+    nbad = 0
+    for (req, writes, raised, flags, orig), rep in zip(corr, model.batch([r for r, _, _, _, _ in corr])):
+        cov.bump("via-send_command/model-" + ("openfailed" if rep == "OPENFAILED" else "rejected" if rep == "ERROR" else "written"))
+        if rep in ("OPENFAILED", "ERROR"):
+            ok = raised is not None and not writes
+        else:
+            mw = rep.split(";", 1)[1]
+            ok = [unhex(x) for x in mw.split(",")] == writes if mw != "EMPTY" else writes == []
+        if not ok and nbad < 5:
+            nbad += 1
+            ctx.corr_breaks.append({"what": "GraphicsTerminal.send_command differs from Model.SendCommand.send_command", "flags(term_ph,term_direct,call_ph,call_direct)": list(flags),
+                                    "caller_tokens": orig, "impl": {"writes": [hexs(w)[:200] for w in writes[:3]], "raised": raised}, "model": rep[:400]})
+    # transmissions cut into several escapes: a terminal reads them as ONE command — the first escape carries the fields,
+    # the payloads concatenate to the data, and the transmission ends (m=0 or no m) exactly at the last escape unless the
+    # caller set more=True, in which case no escape may end it
+    flat = [w for _, ws, _, _ in chunked for w in ws]
+    parsed = iter(model.batch([f"cmd.spec_parse {hexs(w)}" for w in flat])) if flat else iter(())
+    for exp, ws, flags, orig in chunked:
+        cov.bump("via-send_command/chunked")
+        ps = [next(parsed) for _ in ws]
+        problem = None
+        payload = b""
+        for i, rep in enumerate(ps):
+            if rep == "NONE" or ";" not in rep:
+                problem = f"escape {i} does not parse"
+                break
+            kvs, pl = rep.split(";", 1)
+            kv = dict(x.split(":", 1) for x in kvs.split(",")) if kvs != "_" else {}
+            payload += b"" if pl in ("NOPAYLOAD", "-") else bytes.fromhex(pl)
+            m = bytes.fromhex(kv["m"]).decode() if "m" in kv else "0"
+            last = i == len(ps) - 1
+            want = "1" if (not last or exp.more is True) else "0"
+            if m != want:
+                problem = f"escape {i} of {len(ps)} has m={m}; the caller's more={exp.more!r}, so it must be m={want}"
+                break
+        if problem is None and payload != exp.get_raw_payload():
+            problem = "the payloads of the escapes do not concatenate to the data"
+        if problem:
+            ctx.violations.append({"signature": {"class": "escape-does-not-decode-to-fields", "command": "send_command/chunked"},
+                                   "what": f"send_command cut an inline transmission into {len(ws)} escapes: {problem}",
+                                   "case": {"tokens": ["via", "send_command"], "escape": hexs(ws[-1]), "flags": list(flags), "caller_tokens": orig}})
+            break
     reps = model.batch([f"cmd.conforms {hexs(esc)} " + " ".join(toks) for toks, esc, _, _ in checks])
     for (toks, esc, flags, orig), ok in zip(checks, reps):
         fp_term, fd_term, fp_call, fd_call = flags
